@@ -866,15 +866,22 @@ func ruleInitOrder(c *Ctx) {
 }
 
 
-// bufConfigAgreement: see ruleInitOrder.
+// bufConfigAgreement: see ruleInitOrder. Applies to every partial configuration
+// (BufConfig, hashConfig, dhConfig, bucketConfig, …) that init extracts from the
+// parser configuration and hands to the dictionary/buffer initialiser.
 func (c *Ctx) bufConfigAgreement(p *Parser, init *ssa.Function, setDef *ssa.Call, key string) {
 	fi := c.info(init)
-	bcT := c.namedType(c.lz, "BufConfig")
-	if bcT == nil {
-		return
+	isPartCfg := func(t types.Type) bool {
+		n, ok := t.(*types.Named)
+		if !ok || n.Obj().Pkg() == nil || n.Obj().Pkg().Path() != lzPath {
+			return false
+		}
+		if _, isS := n.Underlying().(*types.Struct); !isS {
+			return false
+		}
+		return strings.HasSuffix(strings.ToLower(n.Obj().Name()), "config") && !types.Identical(n, p.Cfg)
 	}
-	// calls in init (or one level down: the dictionary's init) of a function taking a BufConfig value
-	var bufInit *ssa.Call
+	nArgs := 0
 	for _, b := range init.Blocks {
 		for _, in := range b.Instrs {
 			call, ok := in.(*ssa.Call)
@@ -882,49 +889,66 @@ func (c *Ctx) bufConfigAgreement(p *Parser, init *ssa.Function, setDef *ssa.Call
 				continue
 			}
 			for _, a := range call.Call.Args {
-				if types.Identical(a.Type(), bcT) {
-					bufInit = call
+				if !isPartCfg(a.Type()) {
+					continue
 				}
+				nArgs++
+				tn := a.Type().(*types.Named)
+				akey := fmt.Sprintf("%s:part-config:%s", key, tn.Obj().Name())
+				// where does the value come from? a call reading the parser configuration (possibly through
+				// an extract of a tuple result)
+				var src ssa.Instruction
+				switch x := a.(type) {
+				case *ssa.Call:
+					src = x
+				case *ssa.Extract:
+					if sc, ok := x.Tuple.(*ssa.Call); ok {
+						src = sc
+					}
+				case *ssa.UnOp:
+					// loaded from a local that was filled by such a call: find the store
+					if al, ok := x.X.(*ssa.Alloc); ok {
+						for _, ref := range *al.Referrers() {
+							if st, isSt := ref.(*ssa.Store); isSt && st.Addr == ssa.Value(al) {
+								if vi, isI := st.Val.(ssa.Instruction); isI {
+									src = vi
+								}
+							}
+						}
+					}
+				}
+				after := src != nil && fi.instrReaches(setDef, src) && !fi.instrReaches(src, setDef)
+				if after {
+					c.ok(akey, call.Pos(), "%s is derived from the configuration after SetDefaults", tn.Obj().Name())
+					continue
+				}
+				// derived before SetDefaults: the parser config's SetDefaults must not store a field of this
+				// partial configuration itself (only pass it through the part's own SetDefaults)
+				sd := setDef.Call.StaticCallee()
+				direct := ""
+				if sd != nil {
+					for _, sb := range sd.Blocks {
+						for _, sin := range sb.Instrs {
+							st, ok := sin.(*ssa.Store)
+							if !ok {
+								continue
+							}
+							fa, ok := st.Addr.(*ssa.FieldAddr)
+							if !ok {
+								continue
+							}
+							if pt, ok := fa.X.Type().Underlying().(*types.Pointer); ok && types.Identical(pt.Elem(), tn) {
+								direct = c.pos(st.Pos())
+							}
+						}
+					}
+				}
+				c.check(direct == "", akey, call.Pos(), tn.Obj().Name()+" is taken from the raw configuration, and the parser config's SetDefaults only passes it through its own SetDefaults: both completions agree",
+					"init hands over a "+tn.Obj().Name()+" derived BEFORE SetDefaults, while "+p.Cfg.Obj().Name()+".SetDefaults sets one of its fields itself (at "+direct+"): the parser runs with other parameters than ParserConfig() reports, so a parser recreated from the reported configuration behaves differently")
 			}
 		}
 	}
-	if bufInit == nil {
-		c.fail(key+":buffer-config", init.Pos(), "init never hands a BufConfig to the buffer")
-		return
+	if nArgs == 0 {
+		c.fail(key+":part-config", init.Pos(), "init hands no partial configuration (BufConfig, hash configuration) to the buffer or dictionary")
 	}
-	// the BufConfig argument: produced by a call that reads the config value; is that call after SetDefaults?
-	var arg ssa.Value
-	for _, a := range bufInit.Call.Args {
-		if types.Identical(a.Type(), bcT) {
-			arg = a
-		}
-	}
-	src, _ := arg.(*ssa.Call)
-	after := src != nil && fi.instrReaches(setDef, src) && !fi.instrReaches(src, setDef)
-	if after {
-		c.ok(key+":buffer-config", bufInit.Pos(), "the buffer is initialised from the configuration after SetDefaults")
-		return
-	}
-	// derived before SetDefaults: the config's SetDefaults must not set buffer fields itself
-	sd := setDef.Call.StaticCallee()
-	direct := ""
-	if sd != nil {
-		for _, b := range sd.Blocks {
-			for _, in := range b.Instrs {
-				st, ok := in.(*ssa.Store)
-				if !ok {
-					continue
-				}
-				fa, ok := st.Addr.(*ssa.FieldAddr)
-				if !ok {
-					continue
-				}
-				if pt, ok := fa.X.Type().Underlying().(*types.Pointer); ok && types.Identical(pt.Elem(), bcT) {
-					direct = c.pos(st.Pos())
-				}
-			}
-		}
-	}
-	c.check(direct == "", key+":buffer-config", bufInit.Pos(), "the buffer is initialised from the raw configuration, and the config's SetDefaults only passes the buffer fields through BufConfig.SetDefaults: both completions agree",
-		"init hands the buffer a BufConfig derived BEFORE SetDefaults, while "+p.Cfg.Obj().Name()+".SetDefaults sets a buffer field itself (at "+direct+"): the buffer runs with other sizes than ParserConfig() reports, so a parser recreated from the reported configuration behaves differently")
 }
